@@ -73,6 +73,16 @@ def one_history(seed):
     rng = random.Random(seed)
     target = rng.choice(["py", "c", "parser", "py-method"])
     texts = [wikigen.any_input(rng) for _ in range(rng.randint(2, 4))]
+    deep = rng.random() < 0.15
+    if deep:
+        # nesting near and beyond the depth limit: the depth counter is per-call state too
+        dd = rng.choice([30, 60, 70, 101])
+        pairs = [("{{a|", "}}"), ("{{{", "}}}"), ("[[a|", "]]"), ("<b>", "</b>"), ("{{a|", ""), ("<i>", "")]
+        deeps = []
+        for _ in range(2):
+            o, c = rng.choice(pairs)
+            deeps.append(o * dd + "x" + c * dd)
+        texts = deeps + texts[:1]
     texts = [t for t in texts if "\ud800" not in t and "\udfff" not in t] or ["{{a|b}}"]
     if target == "parser":
         obj = Parser()
@@ -91,7 +101,7 @@ def one_history(seed):
     aborted = 0
     for i, t in enumerate(texts):
         if rng.random() < 0.6:
-            k = rng.randint(1, 10)
+            k = rng.randint(1, 10) if not deep else rng.randint(1, 120)
             outcome = None
             site = rng.choice(["_push", "_emit_text", "_pop", "_emit"]) if target == "py-method" else "token"
             _arm(site, k)
